@@ -1,6 +1,45 @@
 import Sourmash.Spec.Sample
-/-! Lemmas/SampleList.lean — list-level facts behind C01 (core Lean only). -/
+/-! Lemmas/SampleList.lean — facts about the abstract sample (finite maps as strictly increasing
+association lists) and about the list primitives of the sketch models.  Core Lean only. -/
 namespace Sample
+open MH
+
+/-- strictly increasing -/
+abbrev Sorted (l : List Nat) : Prop := l.Pairwise (· < ·)
+
+theorem Sorted.tail {k : Nat} {t : List Nat} (h : Sorted (k :: t)) : Sorted t :=
+  (List.pairwise_cons.mp h).2
+
+theorem Sorted.head_lt {k : Nat} {t : List Nat} (h : Sorted (k :: t)) : ∀ x ∈ t, k < x :=
+  (List.pairwise_cons.mp h).1
+
+/-! ### keys / vals -/
+
+@[simp] theorem keys_nil : keys [] = [] := rfl
+@[simp] theorem vals_nil : vals [] = [] := rfl
+@[simp] theorem keys_cons (k v : Nat) (t : FMap) : keys ((k, v) :: t) = k :: keys t := rfl
+@[simp] theorem vals_cons (k v : Nat) (t : FMap) : vals ((k, v) :: t) = v :: vals t := rfl
+@[simp] theorem keys_length (m : FMap) : (keys m).length = m.length := by simp [keys]
+@[simp] theorem vals_length (m : FMap) : (vals m).length = m.length := by simp [vals]
+
+theorem keys_eq_nil {m : FMap} (h : keys m = []) : m = [] := by
+  cases m with
+  | nil => rfl
+  | cons a t => simp [keys] at h
+
+theorem zip_keys_vals (m : FMap) : (keys m).zip (vals m) = m := by
+  induction m with
+  | nil => rfl
+  | cons kv t ih => cases kv; simp [ih]
+
+theorem keys_take (n : Nat) (m : FMap) : keys (m.take n) = (keys m).take n := by simp [keys, List.map_take]
+theorem vals_take (n : Nat) (m : FMap) : vals (m.take n) = (vals m).take n := by simp [vals, List.map_take]
+theorem keys_dropLast (m : FMap) : keys m.dropLast = (keys m).dropLast := by simp [keys, List.map_dropLast]
+theorem vals_dropLast (m : FMap) : vals m.dropLast = (vals m).dropLast := by simp [vals, List.map_dropLast]
+theorem keys_append (m o : FMap) : keys (m ++ o) = keys m ++ keys o := by simp [keys]
+theorem vals_append (m o : FMap) : vals (m ++ o) = vals m ++ vals o := by simp [vals]
+
+/-! ### evict -/
 
 theorem evict_eq_take (n : Nat) (m : FMap) : evict n m = m.take n := by
   induction hlen : m.length generalizing m with
@@ -18,5 +57,333 @@ theorem evict_eq_take (n : Nat) (m : FMap) : evict n m = m.take n := by
       omega
     · simp only [h, if_false]
       exact (List.take_of_length_le (by omega)).symm
+
+/-- `cap` is "keep the `num` smallest" on a num sketch and the identity on a scaled one -/
+theorem cap_eq (σ : St) (m : FMap) : σ.cap m = if σ.num = 0 then m else m.take σ.num := by
+  unfold St.cap; split <;> simp [evict_eq_take]
+
+/-! ### pos -/
+
+@[simp] theorem pos_nil (h : Nat) : pos [] h = 0 := rfl
+theorem pos_cons (k : Nat) (t : List Nat) (h : Nat) : pos (k :: t) h = if k < h then pos t h + 1 else 0 := rfl
+
+theorem pos_le_length (l : List Nat) (h : Nat) : pos l h ≤ l.length := by
+  induction l with
+  | nil => simp
+  | cons k t ih => rw [pos_cons]; split <;> simp <;> omega
+
+/-- past the last element: every element is smaller -/
+theorem pos_eq_length {l : List Nat} {h : Nat} (hp : pos l h = l.length) : ∀ x ∈ l, x < h := by
+  induction l with
+  | nil => simp
+  | cons k t ih =>
+    rw [pos_cons] at hp
+    split at hp
+    · next hk =>
+      intro x hx
+      rcases List.mem_cons.mp hx with rfl | hx
+      · exact hk
+      · exact ih (by simpa using hp) x hx
+    · simp at hp
+
+theorem pos_of_all_lt {l : List Nat} {h : Nat} (hl : ∀ x ∈ l, x < h) : pos l h = l.length := by
+  induction l with
+  | nil => rfl
+  | cons k t ih =>
+    rw [pos_cons, if_pos (hl k (List.mem_cons_self ..)), ih (fun x hx => hl x (List.mem_cons_of_mem _ hx))]
+    rfl
+
+/-- the largest element of a strictly increasing list bounds all of them -/
+theorem le_last_of_mem {l : List Nat} (hs : Sorted l) : ∀ x ∈ l, x ≤ lastOr0 l := by
+  induction l with
+  | nil => simp
+  | cons k t ih =>
+    intro x hx
+    cases t with
+    | nil => simp at hx; subst hx; simp [lastOr0]
+    | cons k' t' =>
+      have e : lastOr0 (k :: k' :: t') = lastOr0 (k' :: t') := by simp [lastOr0, List.getLast?_cons_cons]
+      rw [e]
+      rcases List.mem_cons.mp hx with rfl | hx
+      · have := ih hs.tail k' (List.mem_cons_self ..)
+        have := hs.head_lt k' (List.mem_cons_self ..)
+        omega
+      · exact ih hs.tail x hx
+
+theorem lastOr0_mem {l : List Nat} (hne : l ≠ []) : lastOr0 l ∈ l := by
+  unfold lastOr0
+  cases h : l.getLast? with
+  | none => simp at h; exact absurd h hne
+  | some x => simpa using List.mem_of_getLast? h
+
+/-! ### ins -/
+
+theorem ins_ne_nil (m : FMap) (h a : Nat) : ins m h a ≠ [] := by
+  cases m with
+  | nil => simp [ins]
+  | cons kv t =>
+    cases kv with
+    | mk k v =>
+      simp only [ins]
+      split
+      · simp
+      · split <;> simp
+
+theorem mem_keys_ins {m : FMap} {h a x : Nat} : x ∈ keys (ins m h a) ↔ x = h ∨ x ∈ keys m := by
+  induction m with
+  | nil => simp [ins]
+  | cons kv t ih =>
+    cases kv with
+    | mk k v =>
+      simp only [ins]
+      split
+      · simp
+      · split
+        · next he => subst he; simp
+        · simp only [keys_cons, List.mem_cons, ih]
+          constructor
+          · rintro (h1 | h1 | h1) <;> simp [h1]
+          · rintro (h1 | h1 | h1) <;> simp [h1]
+
+theorem sorted_ins {m : FMap} (hs : Sorted (keys m)) (h a : Nat) : Sorted (keys (ins m h a)) := by
+  induction m with
+  | nil => simp [ins]
+  | cons kv t ih =>
+    cases kv with
+    | mk k v =>
+      simp only [ins]
+      split
+      · next hlt =>
+        simp only [keys_cons]
+        refine List.pairwise_cons.mpr ⟨?_, hs⟩
+        intro x hx
+        rcases List.mem_cons.mp hx with rfl | hx
+        · exact hlt
+        · have := hs.head_lt x hx; omega
+      · split
+        · exact hs
+        · next hnlt hne =>
+          simp only [keys_cons]
+          refine List.pairwise_cons.mpr ⟨?_, ih hs.tail⟩
+          intro x hx
+          rcases mem_keys_ins.mp hx with rfl | hx
+          · omega
+          · exact hs.head_lt x hx
+
+theorem length_ins_le (m : FMap) (h a : Nat) : (ins m h a).length ≤ m.length + 1 := by
+  induction m with
+  | nil => simp [ins]
+  | cons kv t ih =>
+    cases kv with
+    | mk k v =>
+      simp only [ins]
+      split
+      · simp
+      · split
+        · simp
+        · simp only [List.length_cons]; omega
+
+/-- where the vector code finds the insertion point: three shapes of `ins` -/
+theorem ins_at_end {m : FMap} {h : Nat} (a : Nat) (hp : pos (keys m) h = m.length) :
+    ins m h a = m ++ [(h, a)] := by
+  induction m with
+  | nil => rfl
+  | cons kv t ih =>
+    cases kv with
+    | mk k v =>
+      simp only [keys_cons, pos_cons] at hp
+      split at hp
+      · next hk =>
+        have hp' : pos (keys t) h = t.length := by simpa using hp
+        simp only [ins]
+        rw [if_neg (by omega), if_neg (by omega), ih hp']
+        rfl
+      · simp at hp
+
+theorem ins_middle {m : FMap} {h : Nat} (a : Nat) (hlt : pos (keys m) h < m.length)
+    (hnf : (keys m)[pos (keys m) h]? ≠ some h) :
+    keys (ins m h a) = insertAt (keys m) (pos (keys m) h) h
+    ∧ vals (ins m h a) = insertAt (vals m) (pos (keys m) h) a := by
+  induction m with
+  | nil => simp at hlt
+  | cons kv t ih =>
+    cases kv with
+    | mk k v =>
+      simp only [keys_cons, pos_cons] at hlt hnf ⊢
+      by_cases hk : k < h
+      · simp only [hk, if_true] at hlt hnf ⊢
+        have hlt' : pos (keys t) h < t.length := by simpa using hlt
+        have hnf' : (keys t)[pos (keys t) h]? ≠ some h := by simpa using hnf
+        have := ih hlt' hnf'
+        simp only [ins]
+        rw [if_neg (by omega), if_neg (by omega)]
+        simp [insertAt, this.1, this.2]
+      · simp only [hk, if_false] at hlt hnf ⊢
+        have hne : k ≠ h := by simpa using hnf
+        simp only [ins]
+        rw [if_pos (by omega)]
+        simp [insertAt]
+
+theorem ins_found {m : FMap} {h : Nat} (a : Nat) (hf : (keys m)[pos (keys m) h]? = some h) :
+    keys (ins m h a) = keys m ∧ vals (ins m h a) = bump (vals m) (pos (keys m) h) a := by
+  induction m with
+  | nil => simp at hf
+  | cons kv t ih =>
+    cases kv with
+    | mk k v =>
+      simp only [keys_cons, pos_cons] at hf ⊢
+      by_cases hk : k < h
+      · simp only [hk, if_true] at hf ⊢
+        have hf' : (keys t)[pos (keys t) h]? = some h := by simpa using hf
+        have := ih hf'
+        simp only [ins]
+        rw [if_neg (by omega), if_neg (by omega)]
+        simp [bump, this.1, this.2]
+      · simp only [hk, if_false] at hf ⊢
+        have he : k = h := by simpa using hf
+        subst he
+        simp [ins, bump]
+
+/-! ### del -/
+
+theorem keys_del (m : FMap) (h : Nat) : keys (del m h) = (keys m).filter (· != h) := by
+  induction m with
+  | nil => rfl
+  | cons kv t ih =>
+    cases kv with
+    | mk k v =>
+      simp only [del, List.filter_cons, keys_cons] at ih ⊢
+      split <;> simp [ih]
+
+theorem del_length_le (m : FMap) (h : Nat) : (del m h).length ≤ m.length := List.length_filter_le _ _
+
+theorem sorted_del {m : FMap} (hs : Sorted (keys m)) (h : Nat) : Sorted (keys (del m h)) := by
+  rw [keys_del]; exact hs.filter _
+
+theorem mem_keys_del {m : FMap} {h x : Nat} (hx : x ∈ keys (del m h)) : x ∈ keys m := by
+  rw [keys_del] at hx; exact (List.mem_filter.mp hx).1
+
+/-- deleting a key smaller than all keys, or absent, changes nothing -/
+theorem del_of_not_mem {m : FMap} {h : Nat} (hn : h ∉ keys m) : del m h = m := by
+  unfold del
+  rw [List.filter_eq_self]
+  intro kv hkv
+  have : kv.1 ∈ keys m := List.mem_map_of_mem hkv
+  simp only [bne_iff_ne, ne_eq]
+  intro he; exact hn (he ▸ this)
+
+theorem del_not_found {m : FMap} {h : Nat} (hs : Sorted (keys m))
+    (hnf : (keys m)[pos (keys m) h]? ≠ some h) : del m h = m := by
+  apply del_of_not_mem
+  induction m with
+  | nil => simp
+  | cons kv t ih =>
+    cases kv with
+    | mk k v =>
+      simp only [keys_cons, pos_cons] at hnf ⊢
+      by_cases hk : k < h
+      · simp only [hk, if_true] at hnf
+        have hnf' : (keys t)[pos (keys t) h]? ≠ some h := by simpa using hnf
+        have := ih hs.tail hnf'
+        simp only [List.mem_cons, not_or]
+        exact ⟨by omega, this⟩
+      · simp only [hk, if_false] at hnf
+        have hne : k ≠ h := by simpa using hnf
+        simp only [List.mem_cons, not_or]
+        refine ⟨by omega, ?_⟩
+        intro hm
+        have := hs.head_lt h hm
+        omega
+
+theorem del_found {m : FMap} {h : Nat} (hs : Sorted (keys m))
+    (hf : (keys m)[pos (keys m) h]? = some h) :
+    keys (del m h) = removeAt (keys m) (pos (keys m) h)
+    ∧ vals (del m h) = removeAt (vals m) (pos (keys m) h) := by
+  induction m with
+  | nil => simp at hf
+  | cons kv t ih =>
+    cases kv with
+    | mk k v =>
+      simp only [keys_cons, pos_cons] at hf ⊢
+      by_cases hk : k < h
+      · simp only [hk, if_true] at hf ⊢
+        have hf' : (keys t)[pos (keys t) h]? = some h := by simpa using hf
+        have := ih hs.tail hf'
+        have hne : (k != h) = true := by simp; omega
+        simp only [del, List.filter_cons, hne, if_true, keys_cons, vals_cons, removeAt] at this ⊢
+        simp [this.1, this.2]
+      · simp only [hk, if_false] at hf ⊢
+        have he : k = h := by simpa using hf
+        subst he
+        have hnm : k ∉ keys t := fun hm => by have := hs.head_lt k hm; omega
+        have := del_of_not_mem hnm
+        simp only [del] at this
+        simp [del, List.filter_cons, removeAt, this]
+
+/-! ### has / setv -/
+
+theorem has_iff_mem (m : FMap) (h : Nat) : has m h = true ↔ h ∈ keys m := by
+  simp [has, keys]
+
+theorem found_iff_mem {l : List Nat} (hs : Sorted l) (h : Nat) : l[pos l h]? = some h ↔ h ∈ l := by
+  induction l with
+  | nil => simp
+  | cons k t ih =>
+    rw [pos_cons]
+    by_cases hk : k < h
+    · simp only [hk, if_true, List.getElem?_cons_succ, ih hs.tail, List.mem_cons]
+      constructor
+      · exact Or.inr
+      · rintro (rfl | hm)
+        · omega
+        · exact hm
+    · simp only [hk, if_false, List.getElem?_cons_zero, List.mem_cons, Option.some.injEq]
+      constructor
+      · intro he; exact Or.inl he.symm
+      · rintro (rfl | hm)
+        · rfl
+        · have := hs.head_lt h hm; omega
+
+theorem keys_setv (m : FMap) (h a : Nat) : keys (setv m h a) = keys m := by
+  unfold keys setv
+  rw [List.map_map]
+  apply List.map_congr_left
+  intro kv _
+  simp only [Function.comp]
+  split <;> rfl
+
+theorem setv_of_not_mem {m : FMap} {h : Nat} (a : Nat) (hn : h ∉ keys m) : setv m h a = m := by
+  induction m with
+  | nil => rfl
+  | cons kv t ih =>
+    cases kv with
+    | mk k v =>
+      simp only [keys_cons, List.mem_cons, not_or] at hn
+      simp only [setv, List.map_cons] at ih ⊢
+      rw [if_neg (fun he => hn.1 he.symm), ih hn.2]
+
+theorem vals_setv_found {m : FMap} {h : Nat} (a : Nat) (hs : Sorted (keys m))
+    (hf : (keys m)[pos (keys m) h]? = some h) :
+    vals (setv m h a) = setAt (vals m) (pos (keys m) h) a := by
+  induction m with
+  | nil => simp at hf
+  | cons kv t ih =>
+    cases kv with
+    | mk k v =>
+      simp only [keys_cons, pos_cons] at hf ⊢
+      by_cases hk : k < h
+      · simp only [hk, if_true] at hf ⊢
+        have hf' : (keys t)[pos (keys t) h]? = some h := by simpa using hf
+        have := ih hs.tail hf'
+        simp only [setv, List.map_cons] at this ⊢
+        rw [if_neg (by omega)]
+        simp [setAt, this]
+      · simp only [hk, if_false] at hf ⊢
+        have he : k = h := by simpa using hf
+        subst he
+        have hnm : k ∉ keys t := fun hm => by have := hs.head_lt k hm; omega
+        have := setv_of_not_mem a hnm
+        simp only [setv] at this
+        simp [setv, setAt, this]
 
 end Sample
